@@ -6,6 +6,7 @@ only methods of lower rank (printed in shuffled order), closures are only called
 """
 
 INT, BOOL, STR, OINT = "int", "bool", "str", "(opt int)"
+OBOOL = "(opt bool)"
 
 
 def fn_ty(ps, r):
@@ -113,6 +114,14 @@ class Gen:
             if c < 0.6:
                 return "(nil)"
             return self.int_expr(sc, d, ctx)
+        if ty == OBOOL:
+            vs = self.vars_of(sc, OBOOL)
+            c = r.random()
+            if vs and c < 0.4:
+                return f"(var {self.pick(vs)})"
+            if c < 0.6:
+                return "(nil)"
+            return f"(bool {self.pick(['true', 'false', 'false'])})"
         if ty.startswith("(fn"):
             vs = self.vars_of(sc, ty)
             if vs and r.random() < 0.5:
@@ -307,6 +316,21 @@ class Gen:
         if ctx.get("in_w") and r.random() < 0.18 and not ctx.get("pure"):
             self.features.add("yield-mark")
             return f"(print (bin add (int 0) (bin mul (int 1) {self.int_expr(sc, 1, ctx)})))"
+        if r.random() < 0.07 and not ctx.get("pure"):
+            # `a && (v = e)`, `a || (v = e)`, `a ?? (v = e)` as STATEMENTS (value ignored): the right operand's
+            # side effect happens iff the reference says the operand is evaluated (left false vs nil matters for ??)
+            ms = self.vars_of(sc, INT, True)
+            if ms:
+                self.features.add("shortcircuit-statement")
+                m = self.pick(ms)
+                rhs = f"(assign {m} {self.int_expr(sc, 1, ctx)})"
+                op = self.pick(["and", "or", "nilco", "nilco"])
+                if op == "nilco":
+                    lefts = [f"(var {v})" for v in self.vars_of(sc, OBOOL) + self.vars_of(sc, OINT)]
+                    left = self.pick(lefts) if lefts and r.random() < 0.8 else self.pick(["(nil)", "(bool false)", "(bool true)", "(int 0)"])
+                else:
+                    left = self.bool_expr(sc, 1, ctx)
+                return f"(expr ({op} {left} {rhs})) (print (var {m}))"
         if c < 0.22:
             return self.decl(sc, d, ctx)
         if c < 0.34:
@@ -384,8 +408,10 @@ class Gen:
             ty, ann = BOOL, "_"
         elif c < 0.7:
             ty, ann = STR, "_"
-        elif c < 0.8 and self.k.nilable:
+        elif c < 0.74 and self.k.nilable:
             ty, ann = OINT, OINT
+        elif c < 0.8 and self.k.nilable:
+            ty, ann = OBOOL, OBOOL
         elif self.k.closures and not ctx.get("no_closures"):
             ps = [self.pick([INT, INT, BOOL]) for _ in range(r.randint(0, 2))]
             ty = fn_ty(ps, self.pick([INT, INT, INT, BOOL]))
